@@ -40,6 +40,9 @@ CHECKS = {
             {"harnesses": [H + "ZZH1Behaviour"], "flags": VLQ_REDIRECT, "quick": {"budget": 1, "stmts": 2, "palette": 12, "palettemask": 19, "maxlist": 1, "nofunc": 1}, "thorough": {"budget": 1, "stmts": 2, "palette": 12, "palettemask": 51, "maxlist": 1, "nofunc": 1}},
             # comments together with a multi-line backtick string
             {"harnesses": [H + "ZZH1Behaviour"], "flags": VLQ_REDIRECT, "quick": {"budget": 0, "stmts": 2, "palette": 12, "palettemask": 513, "trivia": 1, "triviakinds": 5, "nofunc": 1}, "thorough": {"budget": 0, "stmts": 3, "palette": 12, "palettemask": 513, "trivia": 2, "triviakinds": 5, "nofunc": 1}},
+            # statements inside a function body (return available at no cost) with comments on any token: the restricted
+            # production after `return` with trivia replayed around calls / member accesses / operators
+            {"harnesses": [H + "ZZH1Behaviour"], "flags": VLQ_REDIRECT, "quick": {"budget": 2, "stmts": 1, "trivia": 1, "triviakinds": 2, "wrapfunc": 1, "nofunc": 1, "atoms": 1, "maxlist": 1, "stmtmask": 128, "exprmask": 896}, "thorough": {"budget": 2, "stmts": 1, "trivia": 1, "triviakinds": 5, "wrapfunc": 1, "nofunc": 1, "atoms": 1, "maxlist": 1, "stmtmask": 128, "exprmask": 1022}},
         ],
     },
     "C14": {
@@ -132,7 +135,10 @@ CHECKS = {
         "runs": [
             {"harnesses": [H + "ZZH8SourceMap"], "flags": VLQ_REDIRECT, "quick": dict(GEN_Q, budget=1, atoms=2, concretepos=0, pretty=0), "thorough": dict(GEN_Q, atoms=2, concretepos=0, pretty=0)},
             {"harnesses": [H + "ZZH8SourceMap"], "flags": VLQ_REDIRECT, "quick": dict(GEN_Q, budget=1, atoms=2, concretepos=0, pretty=1, indents=4), "thorough": dict(GEN_Q, atoms=2, concretepos=0, pretty=1, indents=4)},
-            {"harnesses": [H + "ZZH8SourceMap"], "flags": VLQ_REDIRECT, "quick": dict(GEN_Q, budget=1, concretepos=0, pretty=1, trivia=1, triviakinds=5), "thorough": dict(GEN_Q, concretepos=0, pretty=1, trivia=1, triviakinds=3)},
+            {"harnesses": [H + "ZZH8SourceMap"], "flags": VLQ_REDIRECT, "quick": dict(GEN_Q, budget=1, concretepos=0, pretty=1, trivia=1, triviakinds=6), "thorough": dict(GEN_Q, concretepos=0, pretty=1, trivia=1, triviakinds=3)},
+            # token start positions are the lexer's (layer L): the step lemma of C10 on a 5-byte window, which includes
+            # multi-line literals followed by further tokens on their closing line
+            {"harnesses": [LX + "ZZH10Step"], "quick": {"K": 5, "prefix": 0}, "thorough": {"K": 7, "prefix": 0}},
             # nested statement structure (blocks in blocks, if/while/for bodies) under every indent unit
             {"harnesses": [H + "ZZH8SourceMap"], "flags": VLQ_REDIRECT,
              "quick": {"budget": 2, "stmts": 1, "atoms": 1, "maxlist": 1, "nofunc": 1, "exprmask": 1, "concretepos": 0, "pretty": 1, "indents": 4},
@@ -214,7 +220,7 @@ CHECKS = {
             {"harnesses": [H + "ZZH12Truncate", H + "ZZH12DeleteDelimiter"], "flags": VLQ_REDIRECT,
              "quick": dict(GEN_Q, stmts=1), "thorough": dict(GEN_Q, stmts=2)},
             {"harnesses": [H + "ZZH12Fuse"], "flags": VLQ_REDIRECT, "quick": GEN_Q, "thorough": GEN_T},
-            {"harnesses": [H + "ZZH12Literal"], "quick": {"K": 3}, "thorough": {"K": 5}},
+            {"harnesses": [H + "ZZH12Literal", H + "ZZH12Number"], "quick": {"K": 3}, "thorough": {"K": 5}},
             {"harnesses": [H + "ZZH12TruncateIncomplete"], "flags": VLQ_REDIRECT, "quick": GEN_Q, "thorough": GEN_T},
             # general single-token deletion, invalidity decided by the permissive reference recogniser R3
             {"harnesses": [H + "ZZH12DeleteAny"], "flags": VLQ_REDIRECT, "quick": dict(GEN_Q, budget=1), "thorough": dict(GEN_Q, stmts=1)},
